@@ -15,7 +15,11 @@ for p in sorted(glob.glob(f"{V}/harness/props/c*.py")):
         continue
     for n in tree.body:
         if isinstance(n, ast.Assign) and any(getattr(t, "id", "") == "PINS" for t in n.targets):
-            for rel, qual in ast.literal_eval(n.value):
+            try:
+                pins = ast.literal_eval(n.value)
+            except Exception:      # not a pure literal: import the module and read the list
+                pins = getattr(importlib.import_module("harness.props." + os.path.basename(p)[:-3]), "PINS")
+            for rel, qual in pins:
                 t = ast.parse(open(os.path.join("/repo", rel)).read()); node = t
                 for part in qual.split("."):
                     node = next(x for x in ast.walk(node) if isinstance(x, (ast.FunctionDef, ast.ClassDef, ast.AsyncFunctionDef)) and x.name == part)
